@@ -103,6 +103,29 @@ def schemata():
         rule(part, '&tel { > (X > p(X)) } :- q(X).')
         rule(part, '&tel { X > (> p(X)) | (X+1) >: r(X) } :- q(X).')
         rule(part, '&tel { (X-1) > (X > p(X)) } :- d(X), not a.')
+    # arithmetic chains in the arguments of atoms inside formulas: the instance is the VALUE (left-associative + and -, nested parentheses)
+    for part in ('always', 'initial', 'dynamic'):
+        S.append((part, '&tel { > p(X-1-1) } :- q(X).', '&tel { > p(-1) } :- q(1).\n&tel { > p(0) } :- q(2).'))
+        S.append((part, '&tel { p(3-X-1) | > r(X+1-1) } :- q(X), not a.', '&tel { p(1) | > r(1) } :- q(1), not a.\n&tel { p(0) | > r(2) } :- q(2), not a.'))
+        S.append((part, '&tel { > p(2-(X-1)) & p(X-2+1) } :- q(X).', '&tel { > p(2) & p(0) } :- q(1).\n&tel { > p(1) & p(1) } :- q(2).'))
+        S.append((part, '&tel { >* p(X-1-1+2) } :- q(X), a.', '&tel { >* p(1) } :- q(1), a.\n&tel { >* p(2) } :- q(2), a.'))
+    for part in ('always', 'initial', 'final'):
+        S.append((part, 's(X) :- d(X), not &tel { < q(4-X-1) }.', 's(1) :- not &tel { < q(2) }.\ns(2) :- not &tel { < q(1) }.'))
+        S.append((part, 's(X) :- d(X), not &tel { q(X+1-1) >? q(5-X-2) }.', 's(1) :- not &tel { q(1) >? q(2) }.\ns(2) :- not &tel { q(2) >? q(1) }.'))
+        # (no arithmetic inside &del: its theory has no arithmetic operators, + is the choice of paths)
+    # theory atoms in look-ahead constraints: their permanent copy (and with it a new theory atom for state t) is grounded n steps after state t
+    for part in ('always', 'initial', 'dynamic'):
+        rule(part, ":- q'(X), &tel { q(X) & a }.")
+        rule(part, ":- not q'(X), d(X), not &tel { q(X) | < a }.")
+        rule(part, ":- q''(X), &tel { > q(X) }.")
+        S.append((part, ":- a', not &tel { q(X) : d(X) }.", ":- a', not &tel { q(1) & q(2) }."))
+        S.append((part, ":- not a', &tel { > q(X) : d(X) }.\ns :- &tel { (> q(1)) & (> q(2)) }.", ":- not a', &tel { (> q(1)) & (> q(2)) }.\ns :- &tel { (> q(1)) & (> q(2)) }."))
+        S.append((part, ":- a'', not &del { ? q(X) .>? a : d(X) }.", ":- a'', not &tel { (q(1) & a) & (q(2) & a) }."))
+    # classical negation inside formulas
+    for part in ('always', 'initial', 'dynamic'):
+        rule(part, '&tel { -p(X) | > r(X) } :- q(X).')
+        rule(part, '&tel { > -p(X) & ~ -r(X) } :- q(X), not a.')
+        rule(part, 's(X) :- d(X), not &tel { < -p(X) }.\n-p(X) :- q(X), not a.')
     return S
 
 
